@@ -224,6 +224,8 @@ def interpret_minlong(case, ctx):
 def s_random():
     lengths = st.one_of(
         st.integers(0, 80),
+        st.integers(0, 80),
+        st.builds(lambda b, d: max(0, 16 * b + d), st.integers(0, 24), st.integers(-1, 1)),
         st.builds(lambda b, d: max(0, 16 * b + d), st.integers(0, 256), st.integers(-1, 1)),
         st.integers(0, 4096),
     )
@@ -265,7 +267,7 @@ def parts(tier):
     return [
         EnumPart("tail-classes", tail_chunks(tier), tail_cases, interpret_key),
         EnumPart("body-words", word_chunks(tier), word_cases, interpret_key),
-        hyp_part("random", s_random, interpret_key, tier, quick=1500, thorough=60000, quick_shards=2, thorough_shards=16),
+        hyp_part("random", s_random, interpret_key, tier, quick=1500, thorough=12000, quick_shards=2, thorough_shards=16),
         hyp_part("md5-str", s_str, interpret_str, tier, quick=500, thorough=10000, thorough_shards=2),
         hyp_part("minlong", s_minlong, interpret_minlong, tier, quick=300, thorough=3000, thorough_shards=1),
     ]
